@@ -494,6 +494,74 @@ func RunJobScenario(sc *Scenario) (vd *Verdict) {
 				fail(v, i)
 				return
 			}
+		case "runPlain":
+			// a client starts the job through the run operation; only the outcome is looked at
+			started, ended, err := r.H.RunJobToEnd(op.S, op.DS, 2*time.Hour)
+			if err != nil || !started || !ended {
+				fail(viol(sc.Property, "job-run", "run-rejected", "RunJob(%s,%s): %v started=%v ended=%v", op.S, op.DS, err, started, ended), i)
+				return
+			}
+			r.Stats["job_runs"]++
+			if res := r.H.LastResult(op.S); res == nil || res["lastError"] != "" {
+				fail(viol(sc.Property, "job-run", "run-failed", "the run of %s ended with %v", op.S, res), i)
+				return
+			}
+		case "deleteDataset":
+			if err := r.H.Dsm.DeleteDataset(op.DS); err != nil {
+				fail(viol(sc.Property, "harness", "invalid", "delete %s: %v", op.DS, err), i)
+				return
+			}
+			r.Stats["datasets_deleted"]++
+			r.ev("deleteDataset %s", op.DS)
+		case "createDataset":
+			if _, err := r.H.Dsm.CreateDataset(op.DS, nil); err != nil {
+				fail(viol(sc.Property, "harness", "invalid", "create %s: %v", op.DS, err), i)
+				return
+			}
+		case "checkTransformSaw":
+			// what the job's transform was told about an entity of another dataset (lookup, outgoing and incoming
+			// relations) when it transformed the entities named: everything (N=1, the dataset exists) or nothing (N=0,
+			// the dataset has been deleted)
+			ds := r.H.Dataset(op.DS)
+			if ds == nil || (op.N == 0 && r.Stats["datasets_deleted"] == 0) {
+				fail(viol(sc.Property, "harness", "invalid", "dataset %s missing, or nothing was deleted", op.DS), i)
+				return
+			}
+			res, err := ds.GetEntities("", 0)
+			if err != nil {
+				fail(viol(sc.Property, "harness", "invalid", "%v", err), i)
+				return
+			}
+			want := map[string]bool{}
+			for _, x := range op.A {
+				want[markerToFull(fmt.Sprint(x))] = true
+			}
+			checked := 0
+			for _, e := range res.Entities {
+				c := r.H.Canon(e)
+				if !want[c.ID] {
+					continue
+				}
+				checked++
+				num := func(k string) int {
+					f, _ := c.Props[ExS+k].(float64)
+					return int(f)
+				}
+				found, rels, back := num("found"), num("rels"), num("back")
+				if op.N == 0 && (found != 0 || rels != 0 || back != 0) {
+					fail(viol("C07", "transform-reads", "transform-told-of-deleted-dataset", "dataset vX was deleted; when the job's transform then transformed %s, FindById gave it an entity with %d properties, Query %d outgoing and %d incoming relations written to that dataset", shortURI(c.ID), found, rels, back), i)
+					return
+				}
+				if op.N == 1 && (found == 0 || rels != 1 || back != 1) {
+					fail(viol("C07", "harness", "invalid", "before the delete the transform should see the entity: found=%d rels=%d back=%d", found, rels, back), i)
+					return
+				}
+			}
+			if checked == 0 {
+				fail(viol("C07", "transform-reads", "transformed-entity-missing", "none of the entities %v reached the sink", op.A), i)
+				return
+			}
+			r.Stats["transform_answers_checked"] += int64(checked)
 		case "recreateSink":
 			// the sink dataset is deleted and created again between two runs; the job stays configured
 			cfg := r.jobs[op.S]
